@@ -27,7 +27,7 @@ def gen_case(rng, ctx):
     big = rng.random() < 0.1
     cls, ds = gen.dataset(rng, classes="D1 D2 D3 D3 D4 D5 D6 D7 D7 D9 D21", nmax=15 if big else 8, mmax=7)
     ds = libx.normalise_raw(ds)
-    scls, sch = gen.scheme(rng, "S1 S2 S3 S3 S4 S6 S6")
+    scls, sch = gen.scheme(rng, "S1 S2 S3 S3 S4 S6 S6 S14 S14 S13")
     return {"ds": ds, "scheme": sch, "dcls": cls, "scls": scls}
 
 
